@@ -125,9 +125,27 @@ class Ledger:
         return self.tb(b).call_args(bi)[0]
 
     def key(self, s):
+        """Line-free identity of a site: enclosing function (closures count as part of their function), class, operation and the
+        operation the panicking call is applied to (callee name of the receiver), so that moving the site into / out of a closure
+        or renaming locals does not change it."""
         r = self.recv(s)
-        term = fmt(strip_sites(detry(r)))[:160] if r is not None else ''
-        return '%s|%s|%s|%s' % (s['body'].path.replace('bc_envelope::', ''), s['cls'], s['what'], term)
+        head = ''
+        if r is not None:
+            sr = strip_sites(detry(r))
+            if sr[0] in ('call', 'mut'):
+                from .terms import short_key
+                head = short_key(sr[1])
+            else:
+                head = fmt(sr)[:80]
+        host = s['body']
+        for _ in range(6):
+            if host.dk != 'Closure':
+                break
+            h2 = self.F.closure_host(host)
+            if h2 is None:
+                break
+            host = h2
+        return '%s|%s|%s|%s' % (host.path.replace('bc_envelope::', ''), s['cls'], s['what'], head)
 
     # ---------------------------------------------------------------- individual rules: return (rule, argument) or None
     def d_len(self, s):
@@ -197,9 +215,14 @@ class Ledger:
         if not built:
             # an `Assertion` value converted to an envelope
             b = s['body']
-            convs = [cc for bi, cc, t in b.calls() if cc is not None and cc.name in ('into_envelope', 'to_envelope') and cc.is_trait_method('EnvelopeEncodable')]
-            if convs and all(cc.args and cc.args[0].rstrip().endswith('assertion::Assertion') for cc in convs) and strip_sites(a)[0] == 'env':
-                built = True
+            from .terms import ENV_SRC
+            sa = strip_sites(a)
+            if sa[0] == 'agg' and sa[2] == 'Some':
+                sa = sa[3][0]
+            if sa[0] == 'env':
+                src_ty = ENV_SRC.get((b.path, sa[1]), '')
+                if ty_matches(src_ty, 'Assertion') and 'bc_envelope' in src_ty:
+                    built = True
         if not built:
             return None
         if not self.add_fails_only_on_validity():
